@@ -372,7 +372,7 @@ class PolicyRefused(Exception):
     pass
 
 
-def run_ssh_client(host, port, entries, policy, host_key, entry="password"):
+def run_ssh_client(host, port, entries, policy, host_key, entry="password", system_entries=None, user_via="file"):
     """entries: [(name-in-file, hashed?, PKey)] written to a known_hosts file; returns observation.
     entry = which authentication entry point of SSHClient.connect is used: legacy password= / pkey= arguments, or
     auth_strategy= with a password / private-key source"""
@@ -388,11 +388,25 @@ def run_ssh_client(host, port, entries, policy, host_key, entry="password"):
         hk.add(HostKeys.hash_host(name) if hashed else name, key.get_name(), key)
     fd, path = tempfile.mkstemp(prefix="pv-c17-kh")
     os.close(fd)
+    fd, spath = tempfile.mkstemp(prefix="pv-c17-sys")
+    os.close(fd)
     called = []
     try:
         hk.save(path)
         c = paramiko.SSHClient()
-        c.load_host_keys(path)
+        if system_entries is not None:
+            # the system-wide store (load_system_host_keys), consulted before the user's
+            shk = HostKeys()
+            for name, hashed, key in system_entries:
+                shk.add(HostKeys.hash_host(name) if hashed else name, key.get_name(), key)
+            shk.save(spath)
+            c.load_system_host_keys(spath)
+        if user_via == "file":
+            c.load_host_keys(path)
+        else:
+            # the same entries put into the user's store through the API: get_host_keys().add(...)
+            for name, hashed, key in entries:
+                c.get_host_keys().add(HostKeys.hash_host(name) if hashed else name, key.get_name(), key)
 
         class Custom(paramiko.MissingHostKeyPolicy):
             def __init__(self, ok):
@@ -446,6 +460,7 @@ def run_ssh_client(host, port, entries, policy, host_key, entry="password"):
             pass
         ts.join(5)
         os.unlink(path)
+        os.unlink(spath)
 
 
 def run_transport_connect(given, host_key, with_password=True):
